@@ -49,7 +49,7 @@ theorem view_fire_ne (s : Sess) (s' sid : String) (h : sid ≠ s') (r : Req) (k 
   · simp [view, alookup_aerase_ne s' sid h]
 
 theorem view_expire_ne (s' : String) (done : List String) (h : done.contains s' = false) :
-    ∀ (s : Sess) (k : Nat), view s' (expire s done k).1 = view s' s := by
+    ∀ (s : Sess) (k : Nat), view s' (expire Cfg.all s done k).1 = view s' s := by
   induction done with
   | nil => intro s k; rfl
   | cons sid rest ih =>
@@ -58,7 +58,7 @@ theorem view_expire_ne (s' : String) (done : List String) (h : done.contains s' 
       intro e; subst e; simp at h
     have hr : rest.contains s' = false := by
       simp only [List.contains_cons, Bool.or_eq_false_iff] at h; exact h.2
-    simp only [expire]
+    simp only [expire, all_expClean, fireC_all]
     cases hl : alookup sid s.req with
     | none => exact ih hr s k
     | some r =>
@@ -79,7 +79,7 @@ theorem view_step_ne (s : Sess) (s' : String) (e : SessEv) (ha : s.alive = true)
   cases e with
   | msg sid it =>
     have hs : sid ≠ s' := by intro e; subst e; simp [touches] at h
-    simp only [sessStep, ha, if_true, handlePeerMsg]
+    simp only [sessStep, ha, if_true, handlePeerMsg, all_peerClean, fireC_all]
     split
     · rfl
     · split
@@ -95,7 +95,7 @@ theorem view_step_ne (s : Sess) (s' : String) (e : SessEv) (ha : s.alive = true)
           · exact hb
   | req sid num =>
     have hs : sid ≠ s' := by intro e; subst e; simp [touches] at h
-    simp only [sessStep, ha, if_true, handleRequest]
+    simp only [sessStep, ha, if_true, handleRequest, all_reqClean, fireC_all]
     have hb : view s' { s with req := ainsert sid { num := num, chan := s.next } s.req, next := s.next + 1 } = view s' s := by
       simp [view, alookup_ainsert_ne s' sid hs]
     split
@@ -133,7 +133,7 @@ theorem step_eq_vstep (s : Sess) (s' : String) (e : SessEv) (inv : SessInv s)
         have hopen := inv.open_ _ hc
         by_cases hk : ((((alookup sid s.buf).getD [] ++ [it]).length : Nat) : Int) = r.num
         · simp only [sessStep, inv.alive, if_true, handlePeerMsg, hd, Bool.false_eq_true, if_false, vstep, view, hdup, hl,
-            hk, Option.map_some, fire, hopen, alookup_aerase_self, Option.getD_none, Option.map_none] <;>
+            hk, Option.map_some, all_peerClean, fireC_all, fire, hopen, alookup_aerase_self, Option.getD_none, Option.map_none] <;>
           (first | exact ⟨rfl, rfl⟩ | exact ⟨trivial, rfl⟩ | exact ⟨rfl, trivial⟩ | exact ⟨trivial, trivial⟩ | trivial | rfl)
         · simp only [sessStep, inv.alive, if_true, handlePeerMsg, hd, Bool.false_eq_true, if_false, vstep, view, hdup, hl,
             hk, Option.map_some, alookup_ainsert_self, Option.getD_some] <;>
@@ -143,7 +143,7 @@ theorem step_eq_vstep (s : Sess) (s' : String) (e : SessEv) (inv : SessInv s)
     subst hs
     have hfresh : s.next ∉ s.closed := fun hc => absurd (inv.closedLt _ hc) (by simp)
     by_cases hk : ((((alookup sid s.buf).getD []).length : Nat) : Int) = num
-    · simp only [sessStep, inv.alive, if_true, handleRequest, vstep, view, hk, fire, hfresh, if_false,
+    · simp only [sessStep, inv.alive, if_true, handleRequest, vstep, view, hk, all_reqClean, fireC_all, fire, hfresh, if_false,
         alookup_aerase_self, Option.getD_none, Option.map_none] <;>
       (first | exact ⟨rfl, rfl⟩ | exact ⟨trivial, rfl⟩ | exact ⟨rfl, trivial⟩ | exact ⟨trivial, trivial⟩ | trivial | rfl)
     · simp only [sessStep, inv.alive, if_true, handleRequest, vstep, view, hk, if_false, alookup_ainsert_self, Option.map_some] <;>
